@@ -514,6 +514,29 @@ impl<'a, 'b> Gen<'a, 'b> {
 
     /// net lvalue: identifier with constant selects, or a concatenation of such
     pub fn net_lvalue(&mut self) {
+        if self.t.chance(1, 12) {
+            // hierarchical net name with indexed components: g_blk[0].w_net, g_blk[1].h_blk[2].w_net
+            self.tag("net-lvalue-indexed-path");
+            self.id("g_blk");
+            self.sym("[");
+            self.small_const();
+            self.sym("]");
+            if self.t.chance(1, 3) {
+                self.sym(".");
+                self.id("h_blk");
+                self.sym("[");
+                self.small_const();
+                self.sym("]");
+            }
+            self.sym(".");
+            self.id("w_net");
+            if self.t.chance(1, 4) {
+                self.sym("[");
+                self.const_expr(0);
+                self.sym("]");
+            }
+            return;
+        }
         match self.some_var() {
             Some(v) => {
                 if self.t.chance(1, 8) {
